@@ -187,11 +187,11 @@ fn replay_file(path: &Path, quiet: bool) -> i32 {
     let want = doc["signature"].as_str().unwrap_or("").to_string();
     let mut acc = Acc::default();
     let mut last = (def.execute)(&sc, &mut acc);
-    for _ in 1..def.replay_attempts() {
-        if matches!(&last, Ok(vs) if vs.iter().any(|v| v.signature() == want)) {
-            break;
+    if def.replay_attempts() > 1 && !matches!(&last, Ok(vs) if vs.iter().any(|v| v.signature() == want)) {
+        // see minimise::still_fails: several executions at once
+        if minimise::still_fails(def.execute, &sc, &want, def.replay_attempts()) {
+            last = Ok(vec![report::Violation::new(def.info.id, want.split('/').nth(1).unwrap_or(""), want.splitn(3, '/').nth(2).unwrap_or(""), "reproduced in one of several concurrent executions")]);
         }
-        last = (def.execute)(&sc, &mut acc);
     }
     match last {
         Err(e) => {
